@@ -15,11 +15,15 @@ import (
 
 // SessionOpts describes a ready-made session (no feature negotiation runs).
 type SessionOpts struct {
-	State    xmpp.SessionState // extra state bits (Received, S2S, Secure, Authn …)
-	Local    jid.JID           // our address (default test@example.net)
-	Remote   jid.JID           // peer address (default example.net)
-	WS       bool              // WebSocket framing
-	NoHeader bool              // do not feed/consume a stream header
+	State xmpp.SessionState // extra state bits (Received, S2S, Secure, Authn …)
+	Local jid.JID           // our address (default test@example.net)
+	// Origin, when set, is the address the session is created with; the harness
+	// negotiator then changes the local address to Local with UpdateAddr, as
+	// resource binding does when the server assigns an address
+	Origin   jid.JID
+	Remote   jid.JID // peer address (default example.net)
+	WS       bool    // WebSocket framing
+	NoHeader bool    // do not feed/consume a stream header
 }
 
 // Header returns the stream header the harness feeds as the peer for opts.
@@ -73,16 +77,23 @@ func ReadySession(rw io.ReadWriter, o SessionOpts) (*xmpp.Session, error) {
 				out.Name = se.Name
 			}
 		}
+		if !o.Origin.Equal(jid.JID{}) {
+			s.UpdateAddr(o.Local)
+		}
 		in.XMLNS = o.NS()
 		out.XMLNS = o.NS()
 		in.Version = stream.DefaultVersion
 		out.Version = stream.DefaultVersion
 		return o.State | xmpp.Ready, nil, nil, nil
 	}
+	created := o.Local
+	if !o.Origin.Equal(jid.JID{}) {
+		created = o.Origin
+	}
 	if o.State&xmpp.Received != 0 {
 		// location/origin are stored swapped for received sessions by
 		// negotiateSession: LocalAddr() = in.To = location
-		return xmpp.NewSession(ctx, o.Local, o.Remote, rw, o.State, neg)
+		return xmpp.NewSession(ctx, created, o.Remote, rw, o.State, neg)
 	}
-	return xmpp.NewSession(ctx, o.Remote, o.Local, rw, o.State, neg)
+	return xmpp.NewSession(ctx, o.Remote, created, rw, o.State, neg)
 }
